@@ -261,10 +261,10 @@ theorem parseFileV5_some (e : Endian) (f : Format) (fmt : List EntryFormat) :
     obtain ⟨⟨v, r⟩, _, h⟩ := h
     refine ih _ _ _ _ h ?_
     by_cases hct : ct = 1
-    · left; simp [hct]
+    · left; simp [FileAcc.update, hct]
     · rcases hor with h1 | ⟨y, hy, hy1⟩
       · left
-        simp only [hct, ↓reduceIte]
+        simp only [FileAcc.update, hct, ↓reduceIte]
         repeat' split
         all_goals exact h1
       · rcases List.mem_cons.mp hy with rfl | hy
